@@ -9,6 +9,8 @@ def jobs(tier):
     return [
         # single-stream histories: buffer limit, exact CBR size, BITRATE_MAX fill, AUTO equal-size clause, tiny buffers
         Job("c05_budget", "flt-asan", "random", workers=W, cases=1000 if q else 12000, maxtime=60 if q else 600),
+        # the size clauses are arithmetic-independent: the fixed-point encoder must obey them too (other seed stream)
+        Job("c05_budget", "fix-asan", "random", workers=W, cases=300 if q else 6000, maxtime=40 if q else 400, seed_salt=23),
         # multistream / surround / ambisonics histories
         Job("c05_ms", "flt-asan", "random", workers=W, cases=250 if q else 3000, maxtime=60 if q else 400),
         # constrained-VBR long-run clause (>= 5 s windows): the oracle is numeric, so the optimised build carries the
